@@ -110,6 +110,13 @@ Theorem translated_convert_arrays : convert_arrays_ok = true.
 Proof. exact translated_convert_arrays_lemma. Qed.
 Print Assumptions translated_convert_arrays.
 
+(* ... the metadata arrays take their data from the fileset reader's attributes themselves: sample_id <- iid (.fam),
+   variant_position <- bp_position (.bim) as int32, variant_allele <- the (allele_1, allele_2) pairs stacked per variant, as
+   variable-length strings (no intermediate fixed-width buffer that could truncate) ... *)
+Theorem translated_convert_metadata : convert_metadata_ok = true.
+Proof. exact translated_convert_metadata_lemma. Qed.
+Print Assumptions translated_convert_metadata.
+
 (* ... and for every number of variants, chunk size and worker count the slices it submits (num_slices = max(1, 4 * workers),
    through the TRANSLATED chunk_aligned_slices) are a chain of chunk-aligned, non-empty ranges from 0 to m: together with
    translated_slice_rows every variant row is read and written by exactly one worker task *)
